@@ -1807,6 +1807,27 @@ pub fn gen_c12(rng: &mut Rng, thorough: bool) -> Vec<Tagged> {
             out.push(("validate-degenerate-tolerance-70".into(), Case::Net(spec2.clone(), NetCmd::Validate { data: data2.clone(), tol, pre_training: false })));
         }
     }
+    // evaluation sets beyond 64 x 64 samples (4096, 4097, 4160, 4161, 10007): every sample is scored against ITS
+    // target, every sample counts once (targets and predictions vary from sample to sample)
+    for (k, &nd) in [4160usize, 4097, 4161, 4096, 10007].iter().enumerate() {
+        if !(thorough || k < 2) {
+            continue;
+        }
+        let mut spec = NetSpec::new(Sh::Flat(2).to_shape());
+        let d = Simple::Dense { out: 2, act: if k % 2 == 0 { Act::Tanh } else { Act::Softmax }, bias: true, dropout: None };
+        spec.weights = Some(vec![LW::One(rand_w(rng, &d, Sh::Flat(2), 2))]);
+        spec.layers.push(LayerSpec::One(d));
+        spec.obj = if k % 2 == 0 { Obj::MSE } else { Obj::CE };
+        let data: Vec<(Tensor, Tensor)> = (0..nd).map(|i| {
+            let x = vec![((i * 37) % 101) as f32 * 0.02 - 1.0, ((i * 53) % 89) as f32 * 0.03 - 1.3];
+            let t = if k % 2 == 0 { vec![((i * 7) % 13) as f32 * 0.1 - 0.6, ((i * 11) % 17) as f32 * 0.05] } else if i % 3 == 0 { vec![1.0, 0.0] } else { vec![0.0, 1.0] };
+            (t1(x), t1(t))
+        }).collect();
+        out.push((format!("validate-{}-samples", nd), Case::Net(spec.clone(), NetCmd::Validate { data: data.clone(), tol: 0.3, pre_training: false })));
+        if k == 0 || thorough {
+            out.push((format!("predict-batch-{}-inputs", nd), Case::Net(spec, NetCmd::PredictBatch(data.iter().map(|d| d.0.clone()).collect()))));
+        }
+    }
     // consecutive inputs that are NEARLY equal (less than 1e-5 apart in every component), exactly equal, equal up
     // to a NaN component, or of tiny scale (1e-7): every input is predicted and scored on its own
     for r in 0..(if thorough { 12 } else { 4 }) {
@@ -1926,6 +1947,12 @@ pub fn gen_c05(rng: &mut Rng, thorough: bool) -> Vec<Tagged> {
         out.push(("par-learn-conv-chain-equal-padded-size".into(), Case::Net(sp.clone(), NetCmd::Learn { data, val: None, batch: 3, epochs: 2 })));
         out.push(("par-predict-batch-conv-chain-equal-padded-size".into(), Case::Net(sp, NetCmd::PredictBatch(xs))));
     }
+    // a soft-max output over 96 and 200 classes (cross-entropy): the denominator is summed in order
+    for &classes in &[96usize, 200] {
+        let (spec, data) = wide_softmax_job(rng, classes, 12);
+        out.push(("par-learn-wide-softmax".into(), Case::Net(spec.clone(), NetCmd::Learn { data: data.clone(), val: Some((data.clone(), 100)), batch: 4, epochs: 2 })));
+        out.push(("par-predict-batch-wide-softmax".into(), Case::Net(spec, NetCmd::PredictBatch(data.iter().map(|d| d.0.clone()).collect()))));
+    }
     // an optimizer step that overflows part of the parameters, then prediction and validation on the same object
     for &n in &[130usize, 70] {
         let (spec, data) = overflowing_job(n);
@@ -2031,6 +2058,24 @@ pub fn overflowing_job(n: usize) -> (NetSpec, Vec<(Tensor, Tensor)>) {
         let a = (i % 7) as f32 * 0.25 - 0.75;
         let b = (i % 5) as f32 * 0.5 - 1.0;
         (t1(vec![a, b, 1e3 + i as f32]), t1(vec![a + b, a - b]))
+    }).collect();
+    (spec, data)
+}
+
+/// a 12 -> 24 -> `classes` soft-max classifier under cross-entropy with one-hot targets
+pub fn wide_softmax_job(rng: &mut Rng, classes: usize, n: usize) -> (NetSpec, Vec<(Tensor, Tensor)>) {
+    let mut spec = NetSpec::new(Sh::Flat(12).to_shape());
+    let d1 = Simple::Dense { out: 24, act: Act::Tanh, bias: true, dropout: None };
+    let d2 = Simple::Dense { out: classes, act: Act::Softmax, bias: true, dropout: None };
+    spec.weights = Some(vec![LW::One(rand_w(rng, &d1, Sh::Flat(12), 2)), LW::One(rand_w(rng, &d2, Sh::Flat(24), 2))]);
+    spec.layers.push(LayerSpec::One(d1));
+    spec.layers.push(LayerSpec::One(d2));
+    spec.opt = Opt::SGD { lr: 0.05, decay: None };
+    spec.obj = Obj::CE;
+    let data: Vec<(Tensor, Tensor)> = (0..n).map(|i| {
+        let mut t = vec![0.0f32; classes];
+        t[(i * 29 + 3) % classes] = 1.0;
+        (rand_input(rng, Sh::Flat(12), 2), t1(t))
     }).collect();
     (spec, data)
 }
@@ -2141,6 +2186,19 @@ pub fn fals_c05(rng: &mut Rng, thorough: bool) -> crate::fals::Fals {
         let big_pools: Vec<usize> = if thorough { vec![1, 2, 4, 8, 16] } else { vec![1, 4, 8] };
         let cmd = NetCmd::Learn { data, val: None, batch: 64, epochs: 2 };
         across_pools(&mut f, rng, &big_pools, 2, &spec, &cmd, "schedule/learn/large-batch-x-parameters", "learn", "256->256->8 dense network, batch 64");
+    }
+    // a soft-max over 96 / 200 classes: a summation whose order depends on where a temporary buffer happens to
+    // lie in memory (alignment-split vector lanes) differs between threads, schedules and plain repetitions
+    for &classes in &[96usize, 200] {
+        let (spec, data) = wide_softmax_job(rng, classes, 70);
+        let cmds = vec![
+            ("learn", NetCmd::Learn { data: data[..12].to_vec(), val: Some((data.clone(), 100)), batch: 4, epochs: 2 }),
+            ("validate", NetCmd::Validate { data: data.clone(), tol: 0.1, pre_training: false }),
+            ("predict_batch", NetCmd::PredictBatch(data.iter().map(|d| d.0.clone()).collect())),
+        ];
+        for (name, cmd) in cmds {
+            across_pools(&mut f, rng, &pools, reps.max(4), &spec, &cmd, &format!("schedule/{}/wide-softmax", name), name, &format!("12->24->{} soft-max classifier", classes));
+        }
     }
     // an optimizer step that overflows part of the parameters: what follows is still deterministic
     for &n in &[130usize, 65] {
